@@ -1,6 +1,6 @@
 (* C10 — The population size is conserved across generations. *)
 From Coq Require Import String List ZArith Bool Arith Permutation.
-From PV Require Import Xnum Select PyLib Select_proofs Loop Loop_proofs Skeleton Skeleton_proofs.
+From PV Require Import Xnum Select PyLib Select_proofs Loop Loop_proofs Skeleton Skeleton_proofs SizeModels.
 From PVGen Require Import Algos Expected GenSelect.
 From PVBridge Require Import AlgoBridge SelectBridge C16Main ElitMain.
 
@@ -26,7 +26,17 @@ Theorem C10_regular_size : forall A cost copy P, 1 <= P ->
   length p0 = P -> forall k, length (pop_at A H step h0 p0 k) = P.
 Proof. intros. eapply regular_size; eauto. Qed.
 
+(* the 12 optimizers whose population writes are irregular: hand size models (SizeModels.v; executable, compared with the recorded generation sizes of real runs
+   and pinned by source fingerprint).  Under the decidable side condition of its model - implied by the configuration validators, or the documented-size
+   condition (number of groups divides the population, even population for the genetic algorithm) - every generation has exactly P agents *)
+Theorem C10_irregular_models : forall P m, side_ok P m = true -> forall k, iterate (step_of P P m) k P = P.
+Proof. exact model_conserves. Qed.
+(* and outside the side condition the loss is exactly the residual: e.g. clustered optimizers keep P - P mod m agents *)
+Theorem C10_clustered_residual : forall P m n, m <> 0 -> clustered P m P n = P - P mod m.
+Proof. exact clustered_loses_residual. Qed.
+
 Print Assumptions C10_pinned_set.
+Print Assumptions C10_irregular_models.
 Print Assumptions C10_initial_size.
 Print Assumptions C10_write_preserves.
 Print Assumptions C10_regular_size.
